@@ -136,6 +136,13 @@ Definition good (st : state) : Prop := keys_unique st /\ bounded st.
 Lemma good_empty : good empty_state.
 Proof. split; [constructor | intros n H; inversion H]. Qed.
 
+(* a restart gives back the same notice state, provided every notice field is both written and restored *)
+Lemma restart_id : persist_ok = true -> forall st, restart st = st.
+Proof.
+  intros H st. unfold persist_ok in H. rewrite !andb_true_iff in H. destruct H as [[[[[H1 H2] H3] H4] H5] H6].
+  unfold restart, reload, persist. rewrite H1, H2, H3, H4, H5, H6. destruct st; reflexivity.
+Qed.
+
 (* what one server-clock AddNotice does, membership-wise *)
 Lemma add_server_spec : forall st a st' flag id,
   good st -> a_time a = None -> add_notice st a = Some (st', flag, id) ->
@@ -417,13 +424,13 @@ Definition poll_ok (f : nfilter) (out : list notice) (pend : list nkey) : Prop :
   NoDup (map key_of out) /\
   StronglySorted le_lr out.
 
-Lemma hrun_ok : forall f evs st c pend,
+Lemma hrun_ok : persist_ok = true -> forall f evs st c pend,
   inv f st c pend -> forallb ev_server_clock evs = true ->
   Forall (fun r => poll_ok f (fst r) (snd r)) (hrun f st c pend evs).
 Proof.
-  intros f. induction evs as [|e evs IH]; intros st c pend I SC; cbn [hrun]; [constructor|].
+  intros POK f. induction evs as [|e evs IH]; intros st c pend I SC; cbn [hrun]; [constructor|].
   cbn in SC. apply andb_true_iff in SC. destruct SC as [SC1 SC2].
-  destruct e as [a|].
+  destruct e as [a| |].
   - cbn in SC1. destruct (a_time a) eqn:Ht; [discriminate|].
     destruct (add_notice st a) as [[[st' flag] id]|] eqn:HA.
     + apply IH; [|exact SC2]. eapply inv_add; eassumption.
@@ -433,15 +440,16 @@ Proof.
     constructor; [|apply IH; assumption].
     cbn. split; [|split; [exact P2 | split; [exact P3 | exact P4]]].
     intros n Hn. destruct (P1 n Hn) as [_ [Hs Hp]]. split; assumption.
+  - rewrite (restart_id POK). apply IH; assumption.
 Qed.
 
-Theorem exactly_once : forall f evs out pend,
+Theorem exactly_once : persist_ok = true -> forall f evs out pend,
   forallb ev_server_clock evs = true ->
   In (out, pend) (hrun f empty_state None [] evs) ->
   poll_ok f out pend.
 Proof.
-  intros f evs out pend SC H.
-  pose proof (hrun_ok f evs empty_state None [] (inv_init f) SC) as F.
+  intros POK f evs out pend SC H.
+  pose proof (hrun_ok POK f evs empty_state None [] (inv_init f) SC) as F.
   rewrite Forall_forall in F. apply (F _ H).
 Qed.
 
@@ -488,13 +496,13 @@ Qed.
 Definition inv2 (f : nfilter) (st : state) (c : option Z) (pend : list nkey) : Prop :=
   inv f st c pend /\ lr_distinct st.
 
-Lemma hrun_strict : forall f evs st c pend,
+Lemma hrun_strict : persist_ok = true -> forall f evs st c pend,
   inv2 f st c pend -> forallb ev_server_clock evs = true ->
   Forall (fun r => StronglySorted lt_lr (fst r)) (hrun f st c pend evs).
 Proof.
-  intros f. induction evs as [|e evs IH]; intros st c pend [I LD] SC; cbn [hrun]; [constructor|].
+  intros POK f. induction evs as [|e evs IH]; intros st c pend [I LD] SC; cbn [hrun]; [constructor|].
   cbn in SC. apply andb_true_iff in SC. destruct SC as [SC1 SC2].
-  destruct e as [a|].
+  destruct e as [a| |].
   - cbn in SC1. destruct (a_time a) eqn:Ht; [discriminate|].
     destruct (add_notice st a) as [[[st' flag] id]|] eqn:HA.
     + apply IH; [|exact SC2]. split; [eapply inv_add; eassumption|].
@@ -508,30 +516,32 @@ Proof.
     rewrite Hout. unfold poll, notices. cbn [fst].
     eapply Permutation_NoDup; [apply Permutation_map; apply Permutation_sym; apply sort_lr_perm|].
     apply NoDup_map_filter. exact LD.
+  - rewrite (restart_id POK). apply IH; [split|]; assumption.
 Qed.
 
-Theorem answers_strictly_ordered : forall f evs out pend,
+Theorem answers_strictly_ordered : persist_ok = true -> forall f evs out pend,
   forallb ev_server_clock evs = true ->
   In (out, pend) (hrun f empty_state None [] evs) ->
   StronglySorted lt_lr out.
 Proof.
-  intros f evs out pend SC H.
+  intros POK f evs out pend SC H.
   assert (I : inv2 f empty_state None []) by (split; [apply inv_init | constructor]).
-  pose proof (hrun_strict f evs _ _ _ I SC) as F. rewrite Forall_forall in F. apply (F _ H).
+  pose proof (hrun_strict POK f evs _ _ _ I SC) as F. rewrite Forall_forall in F. apply (F _ H).
 Qed.
 
 (* ------------------------------------------------------------------------------------------ C08_timestamps_strict *)
 
 Definition add_server_clock (a : addargs) : bool := match a_time a with None => true | Some _ => false end.
 
-Lemma flag_stamps_strict : forall l st,
-  good st -> forallb add_server_clock l = true ->
+Lemma flag_stamps_strict : persist_ok = true -> forall l st,
+  good st -> forallb ev_server_clock l = true ->
   (forall L z, s_last_ts st = Some L -> In z (flag_stamps st l) -> L < z) /\
   StronglySorted Z.lt (flag_stamps st l).
 Proof.
-  induction l as [|a l IH]; intros st G SC; cbn [flag_stamps]; [split; [intros ? ? ? []|constructor]|].
+  intros POK. induction l as [|e l IH]; intros st G SC; cbn [flag_stamps]; [split; [intros ? ? ? []|constructor]|].
   cbn in SC. apply andb_true_iff in SC. destruct SC as [SC1 SC2].
-  unfold add_server_clock in SC1. destruct (a_time a) eqn:Ht; [discriminate|].
+  destruct e as [a| |]; [|apply IH; assumption|rewrite (restart_id POK); apply IH; assumption].
+  cbn in SC1. destruct (a_time a) eqn:Ht; [discriminate|].
   destruct (add_notice st a) as [[[st' flag] id]|] eqn:HA; [|apply IH; assumption].
   destruct (add_server_spec _ _ _ _ _ G Ht HA) as [HL [HT [G' [[n' [Hf [_ [_ [Hft _]]]]] _]]]].
   rewrite Hf. destruct (IH st' G' SC2) as [I1 I2].
@@ -542,9 +552,9 @@ Proof.
   - split; [|exact I2]. intros L z HL0 Hz. specialize (HT L HL0). specialize (I1 _ z HL Hz). lia.
 Qed.
 
-Theorem timestamps_strict : forall l,
-  forallb add_server_clock l = true -> StronglySorted Z.lt (flag_stamps empty_state l).
-Proof. intros l SC. apply flag_stamps_strict; [apply good_empty | exact SC]. Qed.
+Theorem timestamps_strict : persist_ok = true -> forall l,
+  forallb ev_server_clock l = true -> StronglySorted Z.lt (flag_stamps empty_state l).
+Proof. intros POK l SC. apply (flag_stamps_strict POK); [apply good_empty | exact SC]. Qed.
 
 (* the state reached by server-clock additions is good: keys unique, every last-repeated <= lastNoticeTimestamp *)
 Lemma reach_good : forall l st, good st -> forallb add_server_clock l = true -> good (add_all st l).
@@ -556,19 +566,56 @@ Proof.
   apply IH; [|exact SC2]. apply (add_server_spec _ _ _ _ _ G Ht HA).
 Qed.
 
-(* a new-or-repeated addition is stamped strictly after every notice already in the state *)
-Theorem new_stamp_after_all : forall l a st' id,
-  forallb add_server_clock l = true -> a_time a = None ->
-  add_notice (reach l) a = Some (st', true, id) ->
-  exists n', find (same_key (a_user a) (a_type a) (a_key a)) (s_notices st') = Some n' /\
-             forall m, In m (s_notices (reach l)) -> n_lr m < n_lr n'.
+Lemma state_after_good : persist_ok = true -> forall l st,
+  good st -> forallb ev_server_clock l = true -> good (state_after st l).
 Proof.
-  intros l a st' id SC Ht HA.
-  assert (G : good (reach l)) by (apply reach_good; [apply good_empty | exact SC]).
+  intros POK. induction l as [|e l IH]; intros st G SC; cbn [state_after]; [exact G|].
+  cbn in SC. apply andb_true_iff in SC. destruct SC as [SC1 SC2].
+  destruct e as [a| |]; [|apply IH; assumption|rewrite (restart_id POK); apply IH; assumption].
+  cbn in SC1. destruct (a_time a) eqn:Ht; [discriminate|].
+  destruct (add_notice st a) as [[[st' flag] id]|] eqn:HA; [|apply IH; assumption].
+  apply IH; [|exact SC2]. apply (add_server_spec _ _ _ _ _ G Ht HA).
+Qed.
+
+(* a new-or-repeated addition is stamped strictly after every notice already in the state, restarts included *)
+Theorem new_stamp_after_all : persist_ok = true -> forall l a st' id,
+  forallb ev_server_clock l = true -> a_time a = None ->
+  add_notice (state_after empty_state l) a = Some (st', true, id) ->
+  exists n', find (same_key (a_user a) (a_type a) (a_key a)) (s_notices st') = Some n' /\
+             forall m, In m (s_notices (state_after empty_state l)) -> n_lr m < n_lr n'.
+Proof.
+  intros POK l a st' id SC Ht HA.
+  assert (G : good (state_after empty_state l)) by (apply (state_after_good POK); [apply good_empty | exact SC]).
   destruct (add_server_spec _ _ _ _ _ G Ht HA) as [_ [HT [_ [[n' [Hf [_ [_ [Hft _]]]]] _]]]].
   exists n'. split; [exact Hf|]. intros m Hm. rewrite (Hft eq_refl).
   destruct G as [_ BD]. destruct (BD m Hm) as [L [HL Hle]]. specialize (HT L HL). lia.
 Qed.
+
+(* why the floor has to be restored: if lastNoticeTimestamp came back as zero after a restart, the first addition at a
+   clock reading that is not later than the client's cursor would never be delivered *)
+Definition lost_after_restart_evs : list event :=
+  [EAdd (mkA 100 None (ty 1) (ky 0) 0 None); EAdd (mkA 100 None (ty 1) (ky 0) 0 None); EPoll; ERestart;
+   EAdd (mkA 100 None (ty 1) (ky 1) 0 None); EPoll].
+
+Fixpoint hrun_forgetful (f : nfilter) (st : state) (c : option Z) (pend : list nkey) (evs : list event)
+  : list (list notice * list nkey) :=
+  match evs with
+  | [] => []
+  | EAdd a :: r =>
+      match add_notice st a with
+      | None => hrun_forgetful f st c pend r
+      | Some (st', flag, _) => hrun_forgetful f st' c (if flag then akey a :: pend else pend) r
+      end
+  | EPoll :: r => let '(out, c') := poll st f c in (out, pend) :: hrun_forgetful f st c' [] r
+  | ERestart :: r => hrun_forgetful f (mkS (s_notices st) None (s_last_id st)) c pend r
+  end.
+
+Theorem forgetful_restart_loses_notice :
+  map (fun r => (map n_id (fst r), List.length (snd r))) (hrun_forgetful no_filter empty_state None [] lost_after_restart_evs)
+    = [([1%N], 2%nat); ([], 1%nat)] /\
+  map (fun r => (map n_id (fst r), List.length (snd r))) (hrun no_filter empty_state None [] lost_after_restart_evs)
+    = [([1%N], 2%nat); ([2%N], 1%nat)].
+Proof. split; vm_compute; reflexivity. Qed.
 
 (* ------------------------------------------------------------------------------------------ C08_repeat_after *)
 
